@@ -10,6 +10,7 @@ mod c07;
 mod c08;
 mod c09;
 mod c10;
+mod c11;
 mod c12;
 mod c13;
 mod c14;
@@ -54,6 +55,7 @@ fn main() {
         let v: serde_json::Value = serde_json::from_str(&txt).expect("replay file is JSON");
         let code = match v["property"].as_str().unwrap_or("") {
             "C17" => c17::replay(&v),
+            "C11" => c11::replay(&v),
             "C07" => c07::replay(&v),
             "C09" => c09::replay(&v),
             "C08" => c08::replay(&v),
@@ -71,6 +73,9 @@ fn main() {
             }
         };
         std::process::exit(code);
+    }
+    if args[0] == "c11w" {
+        std::process::exit(c11::worker(&args[1..]));
     }
     if args[0] == "c12w" {
         std::process::exit(c12::worker(&args[1..]));
@@ -128,6 +133,7 @@ fn main() {
         "C08" => c08::run(tier),
         "C09" => c09::run(tier),
         "C10" => c10::run(tier),
+        "C11" => c11::run(tier),
         "C12" => c12::run(tier),
         "C13" => c13::run(tier),
         "C14" => c14::run(tier),
